@@ -1,6 +1,8 @@
 import ApolloModel.Proofs.ParserLossless
 import ApolloModel.Proofs.ParserType10
 import ApolloModel.Proofs.ParserValue9
+import ApolloModel.Proofs.ParserSel9
+import ApolloModel.Proofs.ParserDef19
 /-
 C05 — Syntax acceptance matches the GraphQL grammar.
 
@@ -113,5 +115,279 @@ theorem directives_accept_sound (n : Nat) (isConst : Bool) (s s' : PState) (w : 
   Parse.directives_sound n isConst s s' w he h hnd
 
 end Values
+
+section Selections
+/-! ### selection sets: accepted ⊆ grammar (growth) -/
+
+/-- `selection::selection_set` started on `{`: what an error-free run consumes is a sentence of
+    `SelectionSet : { Selection+ }` of the reference grammar (fields with alias / arguments / directives /
+    nested selection sets, fragment spreads with name ≠ `on`, inline fragments with optional type condition),
+    by induction on the fuel over the mutual recursion selection_set → selection → field / inline_fragment →
+    selection_set, with builderD's argument / directive theorems for the leaves. -/
+theorem selection_set_accepted_is_in_grammar (n : Nat) (s s' : PState) (t : Tok) (rest : List Tok) (w : TW s) (he : EofEnd s)
+    (ht : Toks s = t :: rest) (hk : t.kind = .lCurly) (h : (selectionSet n).run s = .ok () s') (hnd : ¬ Doomed s') :
+    ∃ (cs : List Tok) (ss : Ast.Sels), Toks s = cs ++ Toks s' ∧ NoEof cs ∧ ss ≠ Ast.Sels.nil ∧
+      TokIs (sig cs) (.p .lCurly :: Ast.tSels ss ++ [.p .rCurly]) := by
+  obtain ⟨cs, x, a, b, _, d, ss, hne, rfl⟩ := (Parse.sel_all_sound n).1 s s' t rest w he ht hk h hnd
+  exact ⟨cs, ss, a, b, hne, d⟩
+
+/-- one selection item: a field started on a Name token, an inline fragment or a fragment spread started on `...` -/
+theorem selection_items_accepted_are_in_grammar (n : Nat) (s s' : PState) (t : Tok) (rest : List Tok) (w : TW s) (he : EofEnd s)
+    (ht : Toks s = t :: rest) (hnd : ¬ Doomed s') :
+    (t.kind = .name → (field n).run s = .ok () s' → ∃ cs f, Toks s = cs ++ Toks s' ∧ TokIs (sig cs) (Ast.tSel f)) ∧
+    (t.kind = .spread → (inlineFragment n).run s = .ok () s' → ∃ cs f, Toks s = cs ++ Toks s' ∧ TokIs (sig cs) (Ast.tSel f)) ∧
+    (t.kind = .spread → (fragmentSpread n).run s = .ok () s' →
+      ∃ cs nm ds, Toks s = cs ++ Toks s' ∧ TokIs (sig cs) (Ast.tSel (.spread nm ds)) ∧ nm ≠ "on".toList) := by
+  refine ⟨?_, ?_, ?_⟩
+  · intro hk h
+    obtain ⟨cs, x, a, _, _, d, f, rfl⟩ := (Parse.sel_all_sound n).2.2.1 s s' t rest w he ht hk h hnd
+    exact ⟨cs, f, a, d⟩
+  · intro hk h
+    obtain ⟨cs, x, a, _, _, d, f, rfl⟩ := (Parse.sel_all_sound n).2.2.2 s s' t rest w he ht hk h hnd
+    exact ⟨cs, f, a, d⟩
+  · intro hk h
+    obtain ⟨cs, x, a, _, _, d, nm, ds, rfl, hne⟩ := Parse.fragmentSpread_sound n s s' t rest w he ht hk h hnd
+    exact ⟨cs, nm, ds, a, d, hne⟩
+
+end Selections
+
+section TypeSystem
+
+/-! ### Type-system (SDL) productions: acceptance is sound
+
+Same reading as in `section Values`: a run that adds no error (`¬ Doomed s'`) from a state without token limit
+consumed a prefix `cs` of the token queue whose significant tokens are exactly the C08 token printer of ONE
+object of the production. `KindP p q` says that the queue `q` starts with a token whose kind satisfies `p`
+(the look-ahead every caller performs before entering the production). -/
+
+/-- **`input.rs::input_value_definition`** (`Description? Name : Type DefaultValue? Directives[Const]?`) entered
+    on a Name or String token: the consumed tokens are `tIVD v`; OR the run stopped with the end of input next
+    (an unclosed list inside the default value, reported by the enclosing `)` / `}`). -/
+theorem input_value_definition_accept_sound (n : Nat) (s s' : PState) (w : TW s) (he : EofEnd s)
+    (hq : KindP isNameOrStringK (Toks s)) (h : (inputValueDefinition n).run s = .ok () s') (hnd : ¬ Doomed s') :
+    ∃ cs, Toks s = cs ++ Toks s' ∧ NoEof cs ∧ EofEnd s' ∧
+      ((∃ v : Ast.InputValueDef, (sig cs).map astOfV = (Ast.tIVD v).map some) ∨ AtEof s') := by
+  obtain ⟨cs, a1, a2, a3, a4⟩ := (Parse.acc_ivd n).2 s () s' w he hq h hnd
+  refine ⟨cs, a1, a2, a3, ?_⟩
+  rcases a4 with ⟨x, hx, v, hv⟩ | h4
+  · exact Or.inl ⟨v, by rw [← hv]; exact hx⟩
+  · exact Or.inr h4
+
+/-- **`argument.rs::arguments_definition`** entered on `(`: `( InputValueDefinition+ )`, never empty. -/
+theorem arguments_definition_accept_sound (n : Nat) (s s' : PState) (w : TW s) (he : EofEnd s)
+    (hq : KindP (· == .lParen) (Toks s)) (h : (argumentsDefinition n).run s = .ok () s') (hnd : ¬ Doomed s') :
+    ∃ cs args, Toks s = cs ++ Toks s' ∧ NoEof cs ∧ EofEnd s' ∧ args ≠ [] ∧
+      (sig cs).map astOfV = (Ast.tArgsDef args).map some := by
+  obtain ⟨cs, x, a1, a2, a3, hx, args, hne, e⟩ := (Parse.acc_argumentsDefinition n).sound s s' () w he hq h hnd
+  exact ⟨cs, args, a1, a2, a3, hne, by rw [← e]; exact hx⟩
+
+/-- **`field.rs::field_definition`** (`Description? Name ArgumentsDefinition? : Type Directives[Const]?`). -/
+theorem field_definition_accept_sound (n : Nat) (s s' : PState) (w : TW s) (he : EofEnd s)
+    (hq : KindP isNameOrStringK (Toks s)) (h : (fieldDefinition n).run s = .ok () s') (hnd : ¬ Doomed s') :
+    ∃ cs f, Toks s = cs ++ Toks s' ∧ NoEof cs ∧ EofEnd s' ∧ (sig cs).map astOfV = (Ast.tFieldDef f).map some := by
+  obtain ⟨cs, x, a1, a2, a3, hx, f, e⟩ := (Parse.acc_fieldDefinition Parse.early_false n).sound s s' () w he hq h hnd
+  exact ⟨cs, f, a1, a2, a3, by rw [← e]; exact hx⟩
+
+/-- **`field.rs::fields_definition`** entered on `{`: `{ FieldDefinition+ }`, never empty. -/
+theorem fields_definition_accept_sound (n : Nat) (s s' : PState) (w : TW s) (he : EofEnd s)
+    (hq : KindP (· == .lCurly) (Toks s)) (h : (fieldsDefinition n).run s = .ok () s') (hnd : ¬ Doomed s') :
+    ∃ cs fs, Toks s = cs ++ Toks s' ∧ NoEof cs ∧ EofEnd s' ∧ fs ≠ [] ∧
+      (sig cs).map astOfV = (Ast.tBraced (Ast.tFieldDefItems fs) fs.isEmpty).map some := by
+  obtain ⟨cs, x, a1, a2, a3, hx, fs, hne, e⟩ := (Parse.acc_fieldsDefinition n).sound s s' () w he hq h hnd
+  exact ⟨cs, fs, a1, a2, a3, hne, by rw [← e]; exact hx⟩
+
+/-- **`input.rs::input_fields_definition`** entered on `{`: `{ InputValueDefinition+ }`, never empty. -/
+theorem input_fields_definition_accept_sound (n : Nat) (s s' : PState) (w : TW s) (he : EofEnd s)
+    (hq : KindP (· == .lCurly) (Toks s)) (h : (inputFieldsDefinition n).run s = .ok () s') (hnd : ¬ Doomed s') :
+    ∃ cs fs, Toks s = cs ++ Toks s' ∧ NoEof cs ∧ EofEnd s' ∧ fs ≠ [] ∧
+      (sig cs).map astOfV = (Ast.tBraced (Ast.tIVDItems fs) fs.isEmpty).map some := by
+  obtain ⟨cs, x, a1, a2, a3, hx, fs, hne, e⟩ := (Parse.acc_inputFieldsDefinition n).sound s s' () w he hq h hnd
+  exact ⟨cs, fs, a1, a2, a3, hne, by rw [← e]; exact hx⟩
+
+/-- **`enum_.rs::enum_value_definition`** (`Description? EnumValue Directives[Const]?`). -/
+theorem enum_value_definition_accept_sound (n : Nat) (s s' : PState) (w : TW s) (he : EofEnd s)
+    (hq : KindP isNameOrStringK (Toks s)) (h : (enumValueDefinition n).run s = .ok () s') (hnd : ¬ Doomed s') :
+    ∃ cs v, Toks s = cs ++ Toks s' ∧ NoEof cs ∧ EofEnd s' ∧ (sig cs).map astOfV = (Ast.tEnumValueDef v).map some := by
+  obtain ⟨cs, x, a1, a2, a3, hx, v, e⟩ := (Parse.acc_enumValueDefinition Parse.early_false n).sound s s' () w he hq h hnd
+  exact ⟨cs, v, a1, a2, a3, by rw [← e]; exact hx⟩
+
+/-- **`enum_.rs::enum_values_definition`** entered on `{`: `{ EnumValueDefinition+ }`, never empty. -/
+theorem enum_values_definition_accept_sound (n : Nat) (s s' : PState) (w : TW s) (he : EofEnd s)
+    (hq : KindP (· == .lCurly) (Toks s)) (h : (enumValuesDefinition n).run s = .ok () s') (hnd : ¬ Doomed s') :
+    ∃ cs vs, Toks s = cs ++ Toks s' ∧ NoEof cs ∧ EofEnd s' ∧ vs ≠ [] ∧
+      (sig cs).map astOfV = (Ast.tBraced (Ast.tEnumValueDefItems vs) vs.isEmpty).map some := by
+  obtain ⟨cs, x, a1, a2, a3, hx, vs, hne, e⟩ := (Parse.acc_enumValuesDefinition n).sound s s' () w he hq h hnd
+  exact ⟨cs, vs, a1, a2, a3, hne, by rw [← e]; exact hx⟩
+
+/-- **`schema.rs::root_operation_type_definition`** entered on a Name: no error ⇒ the consumed tokens are
+    `tRootOp (op, name)` = `op : Name` with `op` one of `query`, `mutation`, `subscription` — OR, the KNOWN
+    FINDING, just `op :` with NO named type: `named_type` silently does nothing when no Name follows. The
+    second alternative cannot be dropped, see `root_operation_type_without_name_accepted`. -/
+theorem root_operation_type_definition_accept_sound (s s' : PState) (w : TW s) (he : EofEnd s)
+    (hq : KindP (· == .name) (Toks s)) (h : rootOperationTypeDefinition.run s = .ok () s') (hnd : ¬ Doomed s') :
+    ∃ cs op, Toks s = cs ++ Toks s' ∧ NoEof cs ∧ EofEnd s' ∧
+      ((∃ nm, (sig cs).map astOfV = (Ast.tRootOp (op, nm)).map some) ∨
+        (sig cs).map astOfV = [some (.name op.name.toList), some (.p .colon)]) := by
+  obtain ⟨cs, x, a1, a2, a3, hx, op, e⟩ := (Parse.acc_rootOperationTypeDefinition Parse.early_false).sound s s' () w he hq h hnd
+  refine ⟨cs, op, a1, a2, a3, ?_⟩
+  rcases e with ⟨nm, e⟩ | e
+  · exact Or.inl ⟨nm, by rw [← e]; exact hx⟩
+  · exact Or.inr (by rw [hx, e]; rfl)
+
+/-- KNOWN FINDING, at the production (kernel-evaluated on the model): on `query:}` the root operation type
+    definition returns without any error having consumed `query :` only — the `}` is next. -/
+theorem root_operation_type_without_name_accepted :
+    (match rootOperationTypeDefinition.run (initState "query:}".toList none 500) with
+      | .ok _ s => s.errors.isEmpty && (s.current.map (·.kind) == some Lex.Kind.rCurly)
+      | _ => false) = true := by decide +kernel
+
+/-! #### separated lists, definitions, extensions, dispatch
+
+`LexQ q` is the lexer fact the keyword look-aheads (`peek_data() == "scalar"`, which inspect the TEXT of a token only)
+rely on: every token of the queue whose text starts with a letter or `_` is a Name token. It is a theorem about the
+lexer model for the queue of every source text (`lexer_queue_fact`), and it is inherited by every suffix of a queue.
+`HeadData w q`: the queue starts with a token reading `w`. -/
+
+/-- the token queue the parser starts with satisfies the lexer fact, for every source text -/
+theorem lexer_queue_fact (src : Parse.Str) (rl : Nat) :
+    LexQ (srcToks src) ∧ LexQ (Toks (initState src none rl)) ∧ ∀ cs q, LexQ (cs ++ q) → LexQ q :=
+  ⟨Parse.lexQ_srcToks src, Parse.lexQ_initState src rl, fun _ _ h => h.suffix⟩
+
+/-- C08's printer `tSepList` is the separated list WITHOUT the optional leading separator: `tSepLead sep false`. -/
+theorem separated_list_printer_has_no_lead (intro : List Ast.Tok) (sep : Ast.P) (first : Parse.Str) (rest : List Parse.Str) :
+    Ast.tSepList intro sep (first :: rest) = intro ++ tSepLead sep false first rest ∧
+    tSepLead sep true first rest = .p sep :: tSepLead sep false first rest :=
+  ⟨Parse.tSepList_eq_lead intro sep first rest, rfl⟩
+
+/-- **`object.rs::implements_interfaces`** entered on the `implements` keyword: no error ⇒ the consumed tokens are
+    `implements &? Name (& Name)*` — C08's `tSepList [implements] &` up to ONE optional leading `&` (`lead`). -/
+theorem implements_interfaces_accept_sound (s s' : PState) (w : TW s) (he : EofEnd s)
+    (hq : LexQ (Toks s) ∧ HeadData "implements" (Toks s)) (h : implementsInterfaces.run s = .ok () s') (hnd : ¬ Doomed s') :
+    ∃ cs lead first rest, Toks s = cs ++ Toks s' ∧ NoEof cs ∧ EofEnd s' ∧
+      (sig cs).map astOfV = (.name Ast.sImplements :: tSepLead .amp lead first rest).map some := by
+  obtain ⟨cs, x, a1, a2, a3, hx, lead, first, rest, e⟩ := (Parse.acc_implementsInterfaces Parse.early_false).sound s s' () w he hq h hnd
+  exact ⟨cs, lead, first, rest, a1, a2, a3, by rw [← e]; exact hx⟩
+
+/-- **`union_.rs::union_member_types`** entered on `=`: `= |? Name (| Name)*`. -/
+theorem union_member_types_accept_sound (s s' : PState) (w : TW s) (he : EofEnd s)
+    (hq : KindP (· == .eq) (Toks s)) (h : unionMemberTypes.run s = .ok () s') (hnd : ¬ Doomed s') :
+    ∃ cs lead first rest, Toks s = cs ++ Toks s' ∧ NoEof cs ∧ EofEnd s' ∧
+      (sig cs).map astOfV = (.p .eq :: tSepLead .pipe lead first rest).map some := by
+  obtain ⟨cs, x, a1, a2, a3, hx, lead, first, rest, e⟩ := (Parse.acc_unionMemberTypes Parse.early_false).sound s s' () w he hq h hnd
+  exact ⟨cs, lead, first, rest, a1, a2, a3, by rw [← e]; exact hx⟩
+
+/-- **`directive.rs::directive_locations`** from any state: `|? Location (| Location)*`, every location one of the
+    nineteen location names. -/
+theorem directive_locations_accept_sound (s s' : PState) (w : TW s) (he : EofEnd s)
+    (h : directiveLocations.run s = .ok () s') (hnd : ¬ Doomed s') :
+    ∃ cs lead first rest, Toks s = cs ++ Toks s' ∧ NoEof cs ∧ EofEnd s' ∧
+      (sig cs).map astOfV = (tSepLead .pipe lead first rest).map some ∧ ∀ l ∈ first :: rest, IsDirLoc l := by
+  obtain ⟨cs, x, a1, a2, a3, hx, lead, first, rest, e, hf, hr⟩ :=
+    (Parse.acc_directiveLocations (H := fun _ => True) Parse.early_false).sound s s' () w he trivial h hnd
+  refine ⟨cs, lead, first, rest, a1, a2, a3, by rw [← e]; exact hx, ?_⟩
+  intro l hl
+  rcases List.mem_cons.mp hl with rfl | hl
+  · exact hf
+  · exact hr l hl
+
+/-- `LooseDef.toks l` are the printer's tokens `tDefinition false d` whenever `l` has neither of the two deviations
+    the grammar accepts beyond the printer (a leading `&` / `|`; a root operation type without its named type —
+    the KNOWN FINDING): `LooseDef.strict l = some d`. -/
+theorem loose_definition_strict (l : LooseDef) (d : Ast.Definition) (h : l.strict = some d) :
+    l.toks = Ast.tDefinition false d :=
+  Parse.LooseDef.toks_strict l d h
+
+/-- **A type-system definition parser called on its keyword** (`select_definition` with the text `word` of one of the
+    eight keywords `directive enum input interface type scalar schema union`), the queue starting with that keyword or
+    with a description followed by it (`DefStart`): no error ⇒ the consumed significant tokens are the tokens of ONE
+    loose definition `l` of that kind; the rest of the queue is untouched. -/
+theorem selected_definition_accept_sound (n : Nat) (word : String) (hword : word ∈ defWords) (s s' : PState) (w : TW s)
+    (he : EofEnd s) (hq : LexQ (Toks s) ∧ DefStart word (Toks s))
+    (h : (selectDefinition n word.toList).run s = .ok () s') (hnd : ¬ Doomed s') :
+    ∃ cs l, Toks s = cs ++ Toks s' ∧ NoEof cs ∧ EofEnd s' ∧ (sig cs).map astOfV = (LooseDef.toks l).map some ∧ l.kws = [word] :=
+  Parse.selected_definition_sound n word hword s s' w he hq h hnd
+
+/-- **`type_system_definition_accept_sound`** — through the dispatcher of `document()`. The dispatcher is called with
+    the kind of the current token `t`; the selecting text is the text of the next significant token when `t` is a
+    string (a description), else the text of `t`. If it is one of the eight definition keywords and the run adds no
+    error, the consumed significant tokens are `LooseDef.toks l` for ONE loose definition `l` of that keyword
+    (= `tDefinition false d` when `l.strict = some d`, see `loose_definition_strict`). -/
+theorem type_system_definition_accept_sound (n : Nat) (word : String) (hword : word ∈ defWords) (s s' : PState) (t : Tok)
+    (rest : List Tok) (w : TW s) (he : EofEnd s) (hl : LexQ (Toks s)) (hc : s.current = some t) (ht : Toks s = t :: rest)
+    (hsel : (t.kind = .stringValue ∧ ∃ t2, (sig rest).head? = some t2 ∧ t2.data = word.toList) ∨ t.data = word.toList)
+    (h : (documentDispatch n t.kind).run s = .ok () s') (hnd : ¬ Doomed s') :
+    ∃ cs l, Toks s = cs ++ Toks s' ∧ NoEof cs ∧ EofEnd s' ∧ (sig cs).map astOfV = (LooseDef.toks l).map some ∧ l.kws = [word] :=
+  Parse.dispatch_definition_sound n word hword s s' t rest w he hl hc ht hsel h hnd
+
+/-- **`extensions()`** entered on the `extend` token, the next significant token reading one of the seven keywords
+    `schema scalar type interface union enum input` (what `peek_data_n(2)` sees). -/
+theorem extensions_accept_sound (n : Nat) (w2 : String) (hw2 : w2 ∈ extWords) (s s' : PState) (t : Tok) (rest : List Tok) (t2 : Tok)
+    (w : TW s) (he : EofEnd s) (hl : LexQ (Toks s)) (hc : s.current = some t) (ht : Toks s = t :: rest)
+    (hd : t.data = "extend".toList) (hh2 : (sig rest).head? = some t2) (hd2 : t2.data = w2.toList)
+    (h : (extensions n).run s = .ok () s') (hnd : ¬ Doomed s') :
+    ∃ cs l, Toks s = cs ++ Toks s' ∧ NoEof cs ∧ EofEnd s' ∧ (sig cs).map astOfV = (LooseDef.toks l).map some ∧
+      l.kws = ["extend", w2] :=
+  Parse.extensions_sound n w2 hw2 s s' t rest t2 w he hl hc ht hd hh2 hd2 h hnd
+
+/-- **`type_system_extension_accept_sound`** — through the dispatcher: the current token reads `extend` and the next
+    significant token one of the seven extension keywords; no error ⇒ the consumed significant tokens are
+    `LooseDef.toks l` for ONE loose extension `l` of that kind. -/
+theorem type_system_extension_accept_sound (n : Nat) (w2 : String) (hw2 : w2 ∈ extWords) (s s' : PState) (t : Tok)
+    (rest : List Tok) (t2 : Tok) (w : TW s) (he : EofEnd s) (hl : LexQ (Toks s)) (ht : Toks s = t :: rest)
+    (hd : t.data = "extend".toList) (hh2 : (sig rest).head? = some t2) (hd2 : t2.data = w2.toList)
+    (h : (documentDispatch n t.kind).run s = .ok () s') (hnd : ¬ Doomed s') :
+    ∃ cs l, Toks s = cs ++ Toks s' ∧ NoEof cs ∧ EofEnd s' ∧ (sig cs).map astOfV = (LooseDef.toks l).map some ∧
+      l.kws = ["extend", w2] :=
+  Parse.dispatch_extension_sound n w2 hw2 s s' t rest t2 w he hl ht hd hh2 hd2 h hnd
+
+/-- **The definition parsers as standalone entry points** (from any state of a lexer queue): there the keyword itself is
+    OPTIONAL (`if peek_data == "scalar" { bump }`): `seen` says whether it was there. Shown for `scalar`; the other
+    seven have the same shape (`Parse.accL_*Definition`). -/
+theorem scalar_type_definition_accept_sound (n : Nat) (s s' : PState) (w : TW s) (he : EofEnd s) (hl : LexQ (Toks s))
+    (h : (scalarTypeDefinition n).run s = .ok () s') (hnd : ¬ Doomed s') :
+    ∃ cs desc seen nm ds, Toks s = cs ++ Toks s' ∧ NoEof cs ∧ EofEnd s' ∧
+      (sig cs).map astOfV = (scalarToks desc seen nm ds).map some ∧
+      scalarToks desc true nm ds = Ast.tDefinition false (.scalarDef desc nm ds) := by
+  obtain ⟨cs, x, a1, a2, a3, hx, desc, seen, nm, ds, e⟩ := (Parse.accL_scalarTypeDefinition n).sound s s' () w he hl h hnd
+  exact ⟨cs, desc, seen, nm, ds, a1, a2, a3, by rw [← e]; exact hx, Parse.LooseDef.toks_strict (.scalar desc nm ds) _ rfl⟩
+
+/-- the deviations are real (kernel-evaluated on the model): a leading `&`, a leading `|` in union members and in
+    directive locations are accepted without error -/
+theorem leading_separators_accepted :
+    errorFree "type A implements & B{a:Int}".toList = true ∧ errorFree "union U = | A | B".toList = true ∧
+    errorFree "directive @d on | FIELD".toList = true ∧ errorFree "extend type A implements & B".toList = true := by
+  decide +kernel
+
+end TypeSystem
+
+section Executable
+/-! ### executable definitions: accepted ⊆ grammar (growth) -/
+
+/-- in builderD's acceptance calculus (`Acc E H m R`: `m` is `Good`, and an error-free run from a queue with `H`
+    consumes exactly some `x` with `R x`): operation definitions, fragment definitions, variable definitions -/
+theorem executable_definitions_acc (n : Nat) :
+    Acc (fun _ => False) (fun _ => True) (operationDefinition n) (fun _ => IsOperation)
+    ∧ Acc (fun _ => False) AtFragmentKw (fragmentDefinition n) (fun _ => IsFragment)
+    ∧ Acc (fun _ => False) (KindP (· == Lex.Kind.lParen)) (variableDefinitions n)
+        (fun _ x => ∃ vs : List Ast.VarDef, vs ≠ [] ∧ x = Ast.tVarDefs vs)
+    ∧ Acc (fun _ => False) (KindP (· == Lex.Kind.lCurly)) (selectionSet n)
+        (fun _ x => ∃ ss, ss ≠ Ast.Sels.nil ∧ x = Ast.tSelSet ss) :=
+  ⟨Parse.acc_operationDefinition n, Parse.acc_fragmentDefinition n, Parse.acc_variableDefinitions n, Parse.acc_selectionSet n⟩
+
+/-- what is accepted as an operation definition is a sentence of `OperationDefinition` (full or shorthand form) -/
+theorem operation_definition_accepted_is_in_grammar (n : Nat) (s s' : PState) (w : TW s) (he : EofEnd s)
+    (h : (operationDefinition n).run s = .ok () s') (hnd : ¬ Doomed s') :
+    ∃ (cs : List Tok) (x : List Ast.Tok), Toks s = cs ++ Toks s' ∧ NoEof cs ∧ EofEnd s' ∧
+      (sig cs).map astOfV = x.map some ∧ IsOperation x :=
+  (Parse.acc_operationDefinition n).sound s s' () w he trivial h hnd
+
+/-- what is accepted as a fragment definition is a sentence of `FragmentDefinition` (name ≠ `on`) -/
+theorem fragment_definition_accepted_is_in_grammar (n : Nat) (s s' : PState) (w : TW s) (he : EofEnd s)
+    (hkw : AtFragmentKw (Toks s)) (h : (fragmentDefinition n).run s = .ok () s') (hnd : ¬ Doomed s') :
+    ∃ (cs : List Tok) (x : List Ast.Tok), Toks s = cs ++ Toks s' ∧ NoEof cs ∧ EofEnd s' ∧
+      (sig cs).map astOfV = x.map some ∧ IsFragment x :=
+  (Parse.acc_fragmentDefinition n).sound s s' () w he hkw h hnd
+
+end Executable
 
 end Apollo.C05
